@@ -120,8 +120,10 @@ def gen_case(prop, tier, seed, stream, k):
             for group in (m.cols, m.rows):
                 if len(group) >= 2 and rnd.random() < 0.6:
                     i, j = rnd.sample(range(len(group)), 2)
-                    if str(i) not in [x.name for x in m.cols + m.rows]:
-                        group[i].name = rnd.choice(["b*c", "a^%d" % i, "p[%d]" % i, "u+v", "q<r"]) + ("" if rnd.random() < 0.5 else str(rnd.randint(0, 99)))
+                    bad = rnd.choice(["b*c", "a^%d" % i, "p[%d]" % i, "u+v", "q<r"]) + ("" if rnd.random() < 0.5 else str(rnd.randint(0, 99)))
+                    taken = [x.name for x in m.cols + m.rows]
+                    if str(i) not in taken and bad not in taken:
+                        group[i].name = bad
                         group[j].name = str(i)
                         repaired = True
     fmt = "LP" if prop == "C08" else "MPS"
